@@ -30,7 +30,7 @@ PCT_TOKENS = ["c%d", "%25", "%41", "caf%C3%A9", "100%25", "a%2Fb", "%7E", "%", "
 
 
 def plan(tier, seed):
-    specs = [{"kind": "history"}] + [{"kind": "exhaustive", "first": t} for t in ALPHABET]
+    specs = [{"kind": "history"}, {"kind": "flags"}] + [{"kind": "exhaustive", "first": t} for t in ALPHABET]
     specs.append({"kind": "exhaustive", "first": None})
     for _ in range(4 if tier == "quick" else 12):
         specs.append({"kind": "chains", "n": 1500 if tier == "quick" else 60000})
@@ -59,6 +59,8 @@ def routes(tokens, ue):
             return p
         out["join"] = joined
         out["slash"] = slashed
+    for cname, carrier in (("iter", lambda: iter(list(tokens))), ("generator", lambda: (t for t in tokens)), ("map", lambda: map(str, tokens)), ("tuple", lambda: tuple(tokens)), ("dict-keys", lambda: dict.fromkeys(tokens).keys() if len(set(tokens)) == len(tokens) else list(tokens))):
+        out["from_parts(%s)" % cname] = (lambda c=carrier: JSONPointer.from_parts(c(), unicode_escape=ue))
     out["parent-of-extension"] = lambda: JSONPointer(rp.encode(list(tokens) + ["x"]), unicode_escape=ue).parent()
     # from_match: build a document containing the path and match it
     doc = {}
@@ -200,6 +202,11 @@ def neighbours(tokens):
 
 def run(spec, ctx):
     r = ctx.rng
+    if spec["kind"] == "flags":
+        from rt import flag_history
+
+        flag_history.run(ctx)
+        return
     if spec["kind"] == "history":
         # the same pointer text read earlier under another decoding must not influence later reads
         import jsonpath
@@ -281,4 +288,7 @@ def finalize(m, tier):
 
 
 def replay(case, ctx):
+    if case.get("flags"):
+        run({"kind": "flags"}, ctx)
+        return
     check_sequence(ctx, tuple(case["tokens"]), case["unicode_escape"])
